@@ -1,27 +1,184 @@
 //! C13: the zero-copy decoder agrees with the owned decoder.
-use crate::canon::{hex, hexarg, term_text};
+//!
+//! Per input: both decoders run; each twin is tied to its own model (`dec` / `decb`); the zero-copy decoder's result
+//! WITH its error context (byte offset, path) is tied to the context model (`c13ctx`); the Spec's layout recogniser
+//! judges clause 2 (`c13modern`); the harness itself judges clause 1 (same term), clause 3 (offset within the
+//! input) and that `to_owned` changes nothing in the canonical text of the tree it converts.
+use crate::canon::{hex, hexarg, pid_text, term_text};
 use crate::oracle::oracle_for;
 use crate::tgen::{gen_term, Cfg};
 use crate::Ctx;
 use erltf::errors::DecodeError;
-
-const OWNED_ONLY: [u8; 8] = [115, 80, 101, 102, 103, 114, 121, 82];
+use erltf::types::Sign;
+use erltf::BorrowedTerm;
 
 pub fn owned(b: &[u8]) -> (String, Option<erltf::OwnedTerm>) {
     crate::c01::dec_result(b)
 }
 
+fn loc(l: &Option<bytes::Bytes>) -> String {
+    match l {
+        None => "-".to_string(),
+        Some(b) => format!("={}", hex(b)),
+    }
+}
+
+fn put_list(l: &[BorrowedTerm<'_>], s: &mut String) {
+    for (i, e) in l.iter().enumerate() {
+        if i > 0 {
+            s.push(',');
+        }
+        put(e, s);
+    }
+}
+
+/// the canonical text of canon.rs, written from the zero-copy tree itself (no `to_owned` on the way, except for
+/// the free variables of a fun, which the zero-copy tree stores owned)
+fn put(t: &BorrowedTerm<'_>, s: &mut String) {
+    match t {
+        BorrowedTerm::Atom(a) => {
+            s.push('A');
+            s.push_str(&hex(a.as_bytes()));
+        }
+        BorrowedTerm::Integer(i) => s.push_str(&format!("I{}", i)),
+        BorrowedTerm::Float(f) => s.push_str(&format!("F{:016x}", f.to_bits())),
+        BorrowedTerm::Pid(p) => s.push_str(&pid_text(p)),
+        BorrowedTerm::Port(p) => s.push_str(&format!("O({},{},{},{})", hex(p.node.as_str().as_bytes()), p.id, p.creation, loc(&p.local_ext_bytes))),
+        BorrowedTerm::Reference(r) => s.push_str(&format!(
+            "R({},{},{},{})",
+            hex(r.node.as_str().as_bytes()),
+            r.creation,
+            r.ids.iter().map(|x| x.to_string()).collect::<Vec<_>>().join("."),
+            loc(&r.local_ext_bytes)
+        )),
+        BorrowedTerm::Binary(b) => {
+            s.push('B');
+            s.push_str(&hex(b));
+        }
+        BorrowedTerm::BitBinary { bytes, bits } => s.push_str(&format!("K{}:{}", bits, hex(bytes))),
+        BorrowedTerm::String(x) => {
+            s.push('S');
+            s.push_str(&hex(x.as_bytes()));
+        }
+        BorrowedTerm::List(l) => {
+            s.push_str("L[");
+            put_list(l, s);
+            s.push(']');
+        }
+        BorrowedTerm::ImproperList { elements, tail } => {
+            s.push_str("J[");
+            put_list(elements, s);
+            s.push('|');
+            put(tail, s);
+            s.push(']');
+        }
+        BorrowedTerm::Map(m) => {
+            s.push_str("D[");
+            let mut first = true;
+            for (k, v) in m.iter() {
+                if !first {
+                    s.push(',');
+                }
+                first = false;
+                put(k, s);
+                s.push(',');
+                put(v, s);
+            }
+            s.push(']');
+        }
+        BorrowedTerm::Tuple(l) => {
+            s.push_str("U[");
+            put_list(l, s);
+            s.push(']');
+        }
+        BorrowedTerm::BigInt(b) => {
+            s.push('G');
+            s.push(if b.sign == Sign::Negative { '-' } else { '+' });
+            s.push_str(&hex(&b.digits));
+        }
+        BorrowedTerm::ExternalFun(f) => s.push_str(&format!("X({},{},{})", hex(f.module.as_str().as_bytes()), hex(f.function.as_str().as_bytes()), f.arity)),
+        BorrowedTerm::InternalFun(f) => {
+            s.push_str(&format!(
+                "Y({},{},{},{},{},{},{},{},[",
+                f.arity,
+                hex(&f.uniq),
+                f.index,
+                f.num_free,
+                hex(f.module.as_str().as_bytes()),
+                f.old_index,
+                f.old_uniq,
+                pid_text(&f.pid)
+            ));
+            for (i, e) in f.free_vars.iter().enumerate() {
+                if i > 0 {
+                    s.push(',');
+                }
+                s.push_str(&term_text(e));
+            }
+            s.push_str("])");
+        }
+        BorrowedTerm::Nil => s.push('N'),
+    }
+}
+
+pub struct Borrowed {
+    /// `ok <term>` / `err` / `trailing <n>` / `panic` (the form of the `decb` tie)
+    pub plain: String,
+    /// the same with the context: `err <offset> <hex of display_path>` / `trailing <n> <offset> <path>`
+    pub ctx: String,
+    pub term: Option<erltf::OwnedTerm>,
+    /// canonical text written from the zero-copy tree before conversion
+    pub raw_text: Option<String>,
+    pub offset: Option<usize>,
+}
+
+/// the former interface (used by c02.rs): plain result, converted term, reported offset
 pub fn borrowed(b: &[u8]) -> (String, Option<erltf::OwnedTerm>, Option<usize>) {
-    match std::panic::catch_unwind(|| erltf::decode_borrowed(b).map(|t| t.to_owned())) {
-        Ok(Ok(t)) => (format!("ok {}", term_text(&t)), Some(t), None),
-        Ok(Err(e)) => {
-            let off = e.context.byte_offset;
-            match e.error {
-                DecodeError::TrailingData(n) => (format!("trailing {}", n), None, Some(off)),
-                _ => ("err".to_string(), None, Some(off)),
+    let r = borrowed_full(b);
+    (r.plain, r.term, r.offset)
+}
+
+pub fn borrowed_full(b: &[u8]) -> Borrowed {
+    let r = std::panic::catch_unwind(|| {
+        erltf::decode_borrowed(b).map(|t| {
+            let mut s = String::new();
+            put(&t, &mut s);
+            // the conversion back (`From<&OwnedTerm>`) and forth once more must be the identity as well
+            let o = t.to_owned();
+            let back = BorrowedTerm::from(&o).to_owned();
+            (o, s, back)
+        })
+    });
+    match r {
+        Ok(Ok((t, s, back))) => {
+            let txt = term_text(&t);
+            // `==` on terms is IEEE on floats: a term holding a NaN is not equal to itself, so `==` is asked only otherwise
+            #[allow(clippy::eq_op)]
+            let reflexive = t == t;
+            let stable = (back == t || !reflexive) && term_text(&back) == txt;
+            Borrowed {
+                plain: format!("ok {}", txt),
+                ctx: format!("ok {}", txt),
+                term: Some(t),
+                raw_text: Some(if stable { s } else { format!("{} (from/to_owned changed it)", s) }),
+                offset: None,
             }
         }
-        Err(_) => ("panic".to_string(), None, None),
+        Ok(Err(e)) => {
+            let off = e.context.byte_offset;
+            let path = hex(e.context.display_path().as_bytes());
+            match e.error {
+                DecodeError::TrailingData(n) => Borrowed {
+                    plain: format!("trailing {}", n),
+                    ctx: format!("trailing {} {} {}", n, off, path),
+                    term: None,
+                    raw_text: None,
+                    offset: Some(off),
+                },
+                _ => Borrowed { plain: "err".to_string(), ctx: format!("err {} {}", off, path), term: None, raw_text: None, offset: Some(off) },
+            }
+        }
+        Err(_) => Borrowed { plain: "panic".to_string(), ctx: "panic".to_string(), term: None, raw_text: None, offset: None },
     }
 }
 
@@ -31,31 +188,51 @@ pub fn one(ctx: &mut Ctx, tag: &str, b: &[u8], modern: bool) {
         return;
     };
     let (o, ot) = owned(b);
-    let (bw, bt, off) = borrowed(b);
+    let bw = borrowed_full(b);
+    ctx.count(&format!("class_{}", tag));
     ctx.tie(tag, &format!("dec {} {}", hexarg(b), orc), &o);
-    ctx.tie(tag, &format!("decb {} {}", hexarg(b), orc), &bw);
+    ctx.tie(tag, &format!("decb {} {}", hexarg(b), orc), &bw.plain);
+    ctx.tie(tag, &format!("c13ctx {} {}", hexarg(b), orc), &bw.ctx);
     ctx.count(if ot.is_some() { "owned_ok" } else { "owned_err" });
-    ctx.count(if bt.is_some() { "borrowed_ok" } else { "borrowed_err" });
-    if o == "panic" || bw == "panic" {
-        ctx.fail("c13-panic", &format!("{} owned={} borrowed={}", hex(b), o, bw));
+    ctx.count(if bw.term.is_some() { "borrowed_ok" } else { "borrowed_err" });
+    if o == "panic" || bw.plain == "panic" {
+        ctx.fail("c13-panic", &format!("{} owned={} borrowed={}", hex(b), o, bw.plain));
     }
-    if let Some(off) = off {
+    // clause 3: the reported offset lies within the input
+    if let Some(off) = bw.offset {
+        ctx.count(if off == b.len() { "offset_at_end" } else if off == 0 { "offset_zero" } else { "offset_inside" });
         if off > b.len() {
             ctx.fail("c13-offset-outside-input", &format!("{} offset={} len={}", hex(b), off, b.len()));
         }
     }
-    if let Some(bt) = &bt {
+    // clause 3, what more is true: the offset is where a term starts (judged by the Spec's walk over the layout)
+    if let Some(off) = bw.offset {
+        let kind = if bw.plain.starts_with("trailing") { "trailing" } else { "err" };
+        ctx.prop("c13-offset-not-a-term-start", &format!("c13start {} {} {}", hexarg(b), kind, off), "ok");
+    }
+    // clause 1: same term; and `to_owned` is the identity on the canonical text
+    if let Some(bt) = &bw.term {
         match &ot {
-            Some(ot) if ot == bt && term_text(ot) == term_text(bt) => {}
-            _ => ctx.fail("c13-borrowed-differs", &format!("{} owned={} borrowed={}", hex(b), o, bw)),
+            #[allow(clippy::eq_op)]
+            Some(ot) if (ot == bt || ot != ot) && term_text(ot) == term_text(bt) => {}
+            _ => ctx.fail("c13-borrowed-differs", &format!("{} owned={} borrowed={}", hex(b), o, bw.plain)),
         }
-    } else if ot.is_some() {
-        let has_owned_only = b.iter().any(|x| OWNED_ONLY.contains(x));
-        if modern || !has_owned_only {
-            ctx.fail("c13-borrowed-rejects-modern", &format!("{} owned={} borrowed={}", hex(b), o, bw));
-        } else {
-            ctx.count("owned_only_accept");
+        if bw.raw_text.as_deref() != Some(&term_text(bt)) {
+            ctx.fail(
+                "c13-to-owned-differs",
+                &format!("{} zero-copy-tree={} converted={}", hex(b), bw.raw_text.clone().unwrap_or_default(), term_text(bt)),
+            );
         }
+    }
+    // clause 2: judged by the Spec's recogniser of the modern layout
+    let ok = |x: bool| if x { "ok" } else { "err" };
+    ctx.prop("c13-borrowed-rejects-modern", &format!("c13modern {} {} {}", hexarg(b), ok(ot.is_some()), ok(bw.term.is_some())), "ok");
+    if modern {
+        // the guard is not vacuous: what the encoder writes for these terms is modern-only
+        ctx.tie(tag, &format!("c13shape {}", hexarg(b)), "modern");
+    }
+    if ot.is_some() && bw.term.is_none() {
+        ctx.count("owned_only_accept");
     }
 }
 
@@ -97,17 +274,259 @@ fn wide(ctx: &mut Ctx) {
     }
 }
 
+fn be32(n: u32) -> [u8; 4] {
+    n.to_be_bytes()
+}
+
+/// `levels` containers of one kind around `core`, innermost last; the nesting limit (256) is met at the top of the
+/// range, in every position that adds a level: tuple element, list element, list tail, map key, map value, free variable,
+/// and the positions that add a level without a path segment (node of a pid, module of an export)
+fn nest(kind: u8, levels: usize, core: &[u8]) -> Vec<u8> {
+    let mut pre: Vec<u8> = vec![131];
+    let mut post: Vec<Vec<u8>> = vec![];
+    for _ in 0..levels {
+        match kind {
+            0 => pre.extend_from_slice(&[104, 1]),
+            1 => {
+                pre.extend_from_slice(&[108, 0, 0, 0, 1]);
+                post.push(vec![106]);
+            }
+            2 => pre.extend_from_slice(&[108, 0, 0, 0, 0]), // the tail position
+            3 => {
+                pre.extend_from_slice(&[116, 0, 0, 0, 1]);
+                post.push(vec![97, 1]); // nested in the key, value behind it
+            }
+            4 => pre.extend_from_slice(&[116, 0, 0, 0, 1, 119, 1, b'k']), // nested in the value
+            5 => pre.extend_from_slice(&[105, 0, 0, 0, 2, 97, 0]), // second element of a large tuple
+            _ => {
+                // free variable of a fun
+                pre.push(112);
+                pre.extend_from_slice(&be32(0));
+                pre.push(0);
+                pre.extend_from_slice(&[7u8; 16]);
+                pre.extend_from_slice(&be32(1));
+                pre.extend_from_slice(&be32(1));
+                pre.extend_from_slice(&[119, 1, b'm', 97, 1, 97, 2]);
+                pre.extend_from_slice(&[88, 119, 1, b'n', 0, 0, 0, 1, 0, 0, 0, 2, 0, 0, 0, 3]);
+            }
+        }
+    }
+    pre.extend_from_slice(core);
+    for p in post.iter().rev() {
+        pre.extend_from_slice(p);
+    }
+    pre
+}
+
+fn depth_limit(ctx: &mut Ctx) {
+    let cores: Vec<(&str, Vec<u8>)> = vec![
+        ("nil", vec![106]),
+        ("int", vec![97, 9]),
+        ("pid", vec![88, 119, 1, b'n', 0, 0, 0, 1, 0, 0, 0, 2, 0, 0, 0, 3]),
+        ("export", vec![113, 119, 1, b'm', 119, 1, b'f', 97, 2]),
+        ("ref", vec![90, 0, 1, 119, 1, b'n', 0, 0, 0, 1, 0, 0, 0, 7]),
+        ("badtag", vec![0]),
+        ("cut", vec![]),
+        ("legacy-atom", vec![115, 1, b'a']),
+    ];
+    let levels: &[usize] = if ctx.thorough { &[1, 2, 200, 253, 254, 255, 256, 257, 258, 259, 300] } else { &[2, 254, 255, 256, 257, 258] };
+    for kind in 0..7u8 {
+        for &l in levels {
+            for (name, core) in &cores {
+                // a fun carries ~57 bytes per level: the three levels around the limit and three cores are enough
+                if kind == 6 && (!(255..=257).contains(&l) || !["nil", "badtag", "cut"].contains(name)) {
+                    continue;
+                }
+                let b = nest(kind, l, core);
+                ctx.count(&format!("depth_kind{}_{}", kind, name));
+                one(ctx, "depth", &b, false);
+            }
+        }
+    }
+}
+
+/// announced counts above the limits, above the bytes left, and at the boundaries
+fn counts(ctx: &mut Ctx) {
+    let mut v: Vec<Vec<u8>> = vec![];
+    for tag in [105u8, 108, 116, 109, 77, 111] {
+        for n in [0u32, 1, 2, 255, 65536, 1_000_000, 1_000_001, 10_000_000, 10_000_001, 100_000_000, 100_000_001, 0x7fff_ffff, 0xffff_ffff] {
+            for tailn in [0usize, 1, 3, 9] {
+                let mut b = vec![131, tag];
+                b.extend_from_slice(&be32(n));
+                if tag == 77 {
+                    b.push(8);
+                }
+                if tag == 111 {
+                    b.push(0);
+                }
+                for i in 0..tailn {
+                    b.extend_from_slice(if tag == 109 || tag == 77 || tag == 111 { &[1] } else if i % 2 == 0 { &[106] } else { &[97] });
+                }
+                v.push(b);
+            }
+        }
+    }
+    // BIT_BINARY bit counts; atoms, strings, references, small bignums with lengths above what is left
+    for bits in [0u8, 1, 7, 8, 9, 255] {
+        v.push(vec![131, 77, 0, 0, 0, 0, bits]);
+        v.push(vec![131, 77, 0, 0, 0, 1, bits, 0x80]);
+    }
+    for tag in [118u8, 100, 107] {
+        for n in [0u16, 1, 2, 255, 256, 65535] {
+            let mut b = vec![131, tag];
+            b.extend_from_slice(&n.to_be_bytes());
+            b.extend_from_slice(b"ab");
+            v.push(b);
+        }
+    }
+    for n in [0u8, 1, 2, 3, 255] {
+        v.push(vec![131, 119, n, b'a', b'b']);
+        v.push(vec![131, 110, n, 0, 1, 2]);
+        v.push(vec![131, 104, n, 106, 106]);
+        // a reference announcing n words with two present
+        let mut b = vec![131, 90, 0, n, 119, 1, b'n', 0, 0, 0, 1];
+        b.extend_from_slice(&[0, 0, 0, 1, 0, 0, 0, 2]);
+        v.push(b);
+    }
+    // a fun announcing more free variables than it carries
+    for nf in [0u32, 1, 2, 3, 0xffff_ffff] {
+        let mut b = vec![131, 112];
+        b.extend_from_slice(&be32(0));
+        b.push(1);
+        b.extend_from_slice(&[0u8; 16]);
+        b.extend_from_slice(&be32(5));
+        b.extend_from_slice(&be32(nf));
+        b.extend_from_slice(&[119, 1, b'm', 97, 1, 97, 2, 88, 119, 1, b'n', 0, 0, 0, 1, 0, 0, 0, 2, 0, 0, 0, 3]);
+        b.extend_from_slice(&[97, 1, 97, 2]);
+        v.push(b);
+    }
+    for b in v {
+        one(ctx, "count", &b, false);
+    }
+}
+
+/// maps whose value fails behind each kind of key (the path shows the key as text), keys that repeat, and
+/// sub-terms of the wrong kind where an atom / integer / pid is required
+fn contexts(ctx: &mut Ctx) {
+    let keys: Vec<Vec<u8>> = vec![
+        vec![119, 2, b'o', b'k'],
+        vec![119, 0],
+        vec![118, 0, 3, 0xe6, 0x97, 0xa5],
+        vec![100, 0, 2, 0xe9, b'x'],
+        vec![119, 3, b'a', b' ', b'b'],
+        vec![97, 7],
+        vec![98, 0xff, 0xff, 0xff, 0xfe],
+        vec![110, 1, 1, 5],
+        vec![70, 0x3f, 0xf0, 0, 0, 0, 0, 0, 0],
+        vec![109, 0, 0, 0, 1, b'k'],
+        vec![104, 1, 97, 1],
+        vec![106],
+    ];
+    let bad_values: Vec<Vec<u8>> = vec![vec![], vec![0], vec![115, 1, b'a'], vec![97], vec![104, 2, 97, 1], vec![108, 0, 0, 0, 1, 97, 1, 200], vec![97, 1, 9]];
+    for k in &keys {
+        for bv in &bad_values {
+            let mut b = vec![131, 116, 0, 0, 0, 2, 97, 1, 97, 2];
+            b.extend_from_slice(k);
+            b.extend_from_slice(bv);
+            one(ctx, "mapctx", &b, false);
+            // the same one level down, behind a list element and in a tuple
+            let mut c = vec![131, 104, 2, 106, 108, 0, 0, 0, 2, 106, 116, 0, 0, 0, 1];
+            c.extend_from_slice(k);
+            c.extend_from_slice(bv);
+            one(ctx, "mapctx", &c, false);
+        }
+        // the key repeated: the later value wins in both decoders
+        let mut d = vec![131, 116, 0, 0, 0, 3];
+        for val in [1u8, 2, 3] {
+            d.extend_from_slice(k);
+            d.extend_from_slice(&[97, val]);
+        }
+        one(ctx, "mapdup", &d, false);
+    }
+    // numerically equal keys of different types, in both orders
+    for (a, b2) in [(vec![97u8, 1], vec![70u8, 0x3f, 0xf0, 0, 0, 0, 0, 0, 0]), (vec![97, 1], vec![110, 1, 0, 1]), (vec![98, 0, 0, 0, 1], vec![97, 1])] {
+        for swap in [false, true] {
+            let (p, q) = if swap { (&b2, &a) } else { (&a, &b2) };
+            let mut d = vec![131, 116, 0, 0, 0, 2];
+            d.extend_from_slice(p);
+            d.extend_from_slice(&[97, 10]);
+            d.extend_from_slice(q);
+            d.extend_from_slice(&[97, 20]);
+            one(ctx, "mapdup", &d, false);
+        }
+    }
+    // wrong kinds where a specific one is required
+    let wrong: Vec<Vec<u8>> = vec![vec![97, 1], vec![106], vec![104, 0], vec![109, 0, 0, 0, 0], vec![115, 1, b'n'], vec![82, 0], vec![]];
+    for w in &wrong {
+        for head in [vec![88u8], vec![120], vec![89], vec![90, 0, 1], vec![113], vec![113, 119, 1, b'm']] {
+            let mut b = vec![131, 104, 2, 97, 5];
+            b.extend_from_slice(&head);
+            b.extend_from_slice(w);
+            b.extend_from_slice(&[0, 0, 0, 1, 0, 0, 0, 2, 0, 0, 0, 3]);
+            one(ctx, "wrongkind", &b, false);
+        }
+    }
+    // export arity and fun indices out of range / of the wrong kind
+    for a in [vec![97u8, 0], vec![97, 255], vec![98, 0, 0, 1, 0], vec![98, 0xff, 0xff, 0xff, 0xff], vec![110, 1, 0, 3], vec![106]] {
+        let mut b = vec![131, 113, 119, 1, b'm', 119, 1, b'f'];
+        b.extend_from_slice(&a);
+        one(ctx, "wrongkind", &b, false);
+        for slot in 0..2 {
+            let mut f = vec![131, 112];
+            f.extend_from_slice(&be32(0));
+            f.push(1);
+            f.extend_from_slice(&[0u8; 16]);
+            f.extend_from_slice(&be32(5));
+            f.extend_from_slice(&be32(1));
+            f.extend_from_slice(&[119, 1, b'm']);
+            if slot == 0 {
+                f.extend_from_slice(&a);
+                f.extend_from_slice(&[97, 2]);
+            } else {
+                f.extend_from_slice(&[97, 2]);
+                f.extend_from_slice(&a);
+            }
+            f.extend_from_slice(&[88, 119, 1, b'n', 0, 0, 0, 1, 0, 0, 0, 2, 0, 0, 0, 3]);
+            f.extend_from_slice(&[104, 1, 0]);
+            one(ctx, "wrongkind", &f, false);
+        }
+    }
+    // the version byte and the empty input
+    // NaN and infinities: accepted by both; `==` on the terms is not reflexive there
+    for bits in [0x7ff8_0000_0000_0001u64, 0x7fff_ffff_ffff_ffff, 0x7ff0_0000_0000_0000, 0xfff0_0000_0000_0000] {
+        let mut b = vec![131, 104, 2, 70];
+        b.extend_from_slice(&bits.to_be_bytes());
+        b.extend_from_slice(&[116, 0, 0, 0, 1, 70]);
+        b.extend_from_slice(&bits.to_be_bytes());
+        b.extend_from_slice(&[97, 1]);
+        one(ctx, "nan", &b, false);
+    }
+    for b in [vec![], vec![131], vec![130, 106], vec![0], vec![131, 106, 0], vec![131, 106, 106, 106], vec![131, 131, 106]] {
+        one(ctx, "top", &b, false);
+    }
+}
+
 pub fn run(ctx: &mut Ctx) {
     wide(ctx);
-    let n = ctx.n(400, 8000);
+    depth_limit(ctx);
+    counts(ctx);
+    contexts(ctx);
+    let n = ctx.n(300, 6000);
     let cfg = Cfg { local_ids: false, huge: false, ..Cfg::default() };
     let mut pool: Vec<Vec<u8>> = vec![];
     for _ in 0..n {
         let t = gen_term(&mut ctx.rng, &cfg, 0);
         let Ok(b) = erltf::encode(&t) else { continue };
         one(ctx, "modern", &b, true);
+        // trailing bytes behind a complete term
+        if ctx.rng.chance(1, 4) {
+            let mut tb = b.clone();
+            let extra = 1 + ctx.rng.below(3) as usize;
+            tb.extend(ctx.rng.bytes(extra));
+            one(ctx, "trailing", &tb, false);
+        }
         // truncation at every offset (short encodings) or at a few offsets
-        if b.len() <= 48 {
+        if b.len() <= 64 {
             for k in 0..b.len() {
                 one(ctx, "trunc", &b[..k], false);
             }
@@ -117,9 +536,22 @@ pub fn run(ctx: &mut Ctx) {
                 one(ctx, "trunc", &b[..k], false);
             }
         }
+        // a tag the zero-copy decoder does not know, at every position (short encodings) or at a few
+        let positions: Vec<usize> = if b.len() <= 40 {
+            (1..b.len()).collect()
+        } else if b.len() <= 1500 {
+            (0..2).map(|_| 1 + ctx.rng.below(b.len() as u64 - 1) as usize).collect()
+        } else {
+            vec![]
+        };
+        for i in positions {
+            let mut m = b.clone();
+            m[i] = *ctx.rng.pick(&[0u8, 255, 68, 69, 115, 80, 101, 102, 103, 114, 121, 82, 99, 100]);
+            one(ctx, "badtag", &m, false);
+        }
         // mutations
         if b.len() <= 400 {
-            for _ in 0..3 {
+            for _ in 0..2 {
                 let mut m = b.clone();
                 let flips = 1 + ctx.rng.below(3);
                 for _ in 0..flips {
@@ -134,6 +566,12 @@ pub fn run(ctx: &mut Ctx) {
             }
             pool.push(b);
         }
+        // the same term in another admissible encoding: legacy tags, text floats, LOCAL_EXT wrappers, compression
+        // (the owned decoder accepts them; the zero-copy decoder stops at the first tag it does not know)
+        let mut alt = vec![131u8];
+        let mut stats = vec![];
+        crate::c03::alt(&mut alt, &t, &mut ctx.rng, &mut stats);
+        one(ctx, "alt", &alt, false);
     }
     // splices of two valid encodings
     for _ in 0..n / 2 {
